@@ -1,6 +1,7 @@
 import RossModel.Lemmas.SourceTie
 import RossModel.Lemmas.Can
 import RossModel.Lemmas.Transparent
+import RossModel.Lemmas.SourceFrame
 /-!
 # C08 — CAN frame codec follows the identifier bit layout and round-trips
 
@@ -67,5 +68,15 @@ example :
     let f : Frame := { notError := true, start := false, multi := true, idLast := false, fid := 0x555, addr := 0x5555, dataLen := 8, data := [0x55, 0x55, 0x55, 0x55, 0x55, 0x55, 0x55, 0x55] }
     let c : CanFrame := { ext := true, id := 0x14055555, rtr := false, dlc := 8, data := [0x55, 0x55, 0x55, 0x55, 0x55, 0x55, 0x55, 0x55] }
     toCan f = .ok c ∧ fromCan c = .ok f := by decide
+
+/-- **C08's decoding clause about the decoder as it reads now**: the translated `from_bxcan_frame` (`Src.fromCan`, translated
+from `src/frame.rs` on every run) inverts the encoding of every frame in canonical form -/
+theorem C08_src_fromCan_toCan (f : Frame) (h : f.CanCanonical) :
+    (match toCan f with | .ok c => Src.fromCan c | .err e => .err e | .panic => .panic) = .ok f := by
+  have := Ross.fromCan_toCan f h
+  cases hc : toCan f with
+  | ok c => rw [hc] at this; simpa [Ross.src_fromCan_eq] using this
+  | err e => rw [hc] at this; exact this
+  | panic => rw [hc] at this; exact this
 
 end Ross.Props
